@@ -384,6 +384,27 @@ Theorem C02_result_then_download : forall code d,
 Proof. exact result_then_download. Qed.
 Print Assumptions C02_result_then_download.
 
+(* "saved to a file" = the body: for EVERY previous state of the file system (the file may exist
+   and be longer than the new body), every output directory and file name: after the exchange
+   the file holds exactly the body, no other file changed, no error *)
+Theorem C02_output_file_equals_body : forall st dir file code d,
+  let r := finish (save_cfg None false) code {| rd_rem := d; rd_end := BEof |} in
+  let st' := download_to_file st dir file (a_out r) in
+  store_get (output_path dir file) st' = Some d /\
+  (forall q, bytes_eqb q (output_path dir file) = false -> store_get q st' = store_get q st) /\
+  s_err (a_state r) = false.
+Proof. exact output_file_equals_body. Qed.
+Print Assumptions C02_output_file_equals_body.
+
+(* the same path reused by two exchanges: the file holds the second body, in full *)
+Theorem C02_output_file_last_write_wins : forall st dir file c1 d1 c2 d2,
+  match download_all st dir [(file, c1, d1); (file, c2, d2)] with
+  | [_; st2] => store_get (output_path dir file) st2 = Some d2
+  | _ => False
+  end.
+Proof. exact output_file_last_write_wins. Qed.
+Print Assumptions C02_output_file_last_write_wins.
+
 (* ---------- the tie to the source text (coq/Gen/C02Consts.v, regenerated by gosync) ---------- *)
 
 Theorem C02_auto_read_guard_is_the_sources :
